@@ -183,7 +183,7 @@ PROPS = {
                         "the responder in the correspondence is a static table; theorems quantify over stateful responders"],
     },
     "C17": {
-        "streams": [{"name": "key", "quick": 20000, "thorough": 400000, "thorough_seeds": 3}],
+        "streams": [{"name": "key", "quick": 20000, "thorough": 400000, "thorough_seeds": 3}, _SRC_STREAM],
         "oracles": ["key"],
         "rule": "one case per distinct operation text: peer ids (zero, all-ones, single-bit, random), texts that are valid, "
                 "mutated (foreign characters, CR/LF, non-canonical trailing bits, wrong length), one-bit neighbours for the order "
